@@ -34,6 +34,15 @@ def run(tier):
                 f"(GetOnDemand heap/page-end/page-start, ParseOnDemand, AtPointer); failures so far {len(ctx.fail)}")
         for r in rows[:1] + rows[len(rows) // 2:len(rows) // 2 + 1]:
             ctx.samples.append(O.describe(r))
+    # beyond the node bound: trees grown by random insertions (TLC simulation), hazards for the skipper in the leaves
+    for laye in ((0, 2) if q else (0, 1, 2, 3)):
+        recs = O.gen_rand_od(ctx, 3 if q else 25, 9 if q else 12, laye)
+        rows = O.rows_c10(recs)
+        fails, _ = O.replay_od(ctx, "c10", rows, builds, pads[:4] if q else pads[::3], name=f"odrand{laye}")
+        O.record(ctx, rows, fails, OWN, f"ondemand-random{laye}")
+        total += len(rows)
+        ctx.traces += len(rows) * len(builds)
+    ctx.log(f"replayed the simulated (text, path) cases; failures so far {len(ctx.fail)}")
     # strings whose escapes / quotes / brackets fall at every block offset, where the skipper meets them
     AS = list(range(0, 70)) if q else list(range(0, 135))
     BS = [0, 1, 30, 31, 32, 33] if q else [0, 1, 2, 14, 15, 16, 30, 31, 32, 33, 62, 63, 64, 65]
